@@ -163,7 +163,7 @@ Definition op_pre_basic (g : graph) (o : op) : bool :=
   | OAddLink _ _ ltype ifs => mem_str ltype enum_link_types && add_link_pre g ifs
   | ORemoveLink name => remove_link_pre g name
   | ORename r new => relabel_ok g (ref_id r) (set_name new)
-  | OSetProp r PName v => relabel_ok g (ref_id r) (set_name v)
+  | OSetProp r PName v | OSetProp r PNames v => relabel_ok g (ref_id r) (set_name v)
   | OSetProp r PTypeNode v => relabel_ok g (ref_id r) (set_typ v)
   | OSetProp _ _ _ => true
   | OUnsetProp _ _ => true
@@ -206,9 +206,9 @@ Definition op_pre (fl : flags) (g : graph) (o : op) : bool :=
   end.
 
 (* the library as it is at /repo HEAD: none of the proposed repairs C07-3..6 *)
-Definition flags_off : flags := mkFlags false false false false false false false.
+Definition flags_off : flags := mkFlags false false false false false false false false.
 (* ... with all of them *)
-Definition flags_on : flags := mkFlags true true true true true true true.
+Definition flags_on : flags := mkFlags true true true true true true true true.
 
 Definition hstep := (op * list str * list str)%type.   (* call, ids drawn from uuid4, iteration-order hint *)
 Fixpoint run_hist (sub : bool) (fl : flags) (g : graph) (h : list hstep) : graph :=
